@@ -65,6 +65,10 @@ ENGINE_PROGS = [
     "main=listen,peer:1,peer:2,waitn:2,cbdrop,pclose:1",
     "main=listen,connect,waitn:1,setflag:g,drop ; a=waitflag:g,send:1:5,close:2,drop ; b=waitflag:g,connect,drop",
     "main=listen,setflag:g,stop ; a=waitflag:g,listen,connect,listen ; b=waitflag:g,connect,stop,connect,send:0:2",
+    # blocked synchronous calls on the real engine while another thread stops it
+    "main=listen,setflag:g,csync:100000,send:0:5,stop ; a=waitflag:g,csync:100000,close:0 ; b=waitflag:g,csync:50:dead",
+    "main=listen,peer:1,waitn:1,mode:1:sync,setflag:g,psend:1:6,stop ; a=waitflag:g,recv:1:4:100000,recv:1:4:100000",
+    "main=listen,peer:1,waitn:1,mode:1:sync,setflag:g,stop ; a=waitflag:g,recv:1:4:100000 ; b=waitflag:g,csync:100000,mode:0:sync,recv:0:2:50",
 ]
 # the programs of EngineShutdown.tla: Prog[t] per thread
 ENGINE_MODELS = [
@@ -79,7 +83,7 @@ ENGINE_ACTIONS = ["Enq", "ListenDone", "StopCas", "StopEnq", "StopJoin", "Wake",
 
 def engine_nontrivial(evs):
     stop = [i for i, e in enumerate(evs) if e["e"] == "LifeCall" and e.get("op") in ("stop", "destroy")]
-    return bool(stop) and any(e["e"] in ("ConnRet", "SendRet", "CloseRet", "ListenRet", "Close") for e in evs[stop[0]:])
+    return bool(stop) and any(e["e"] in ("ConnRet", "SendRet", "CloseRet", "ListenRet", "Close", "SyncConnRet", "RecvRet") for e in evs[stop[0]:])
 
 
 def engine_part(ck, thorough):
@@ -136,7 +140,7 @@ def engine_part(ck, thorough):
     tc.run_cases(ck, lines, "engine_random", engine_nontrivial, **kw)
     tc.run_cases(ck, lines[::3], "engine_asan", engine_nontrivial, variant=".asan", **kw)
     tc.run_cases(ck, lines[1::3], "engine_tsan", engine_nontrivial, variant=".tsan", **kw)
-    for j, (proto, pi) in enumerate([("tcp", 1), ("udp", 7)] if not thorough else [("tcp", 1), ("udp", 7), ("tcp", 2), ("tcpb", 0), ("udp", 3), ("tcp", 7)]):
+    for j, (proto, pi) in enumerate([("tcp", 1), ("udp", 7), ("tcp", 10)] if not thorough else [("tcp", 1), ("udp", 7), ("tcp", 10), ("tcp", 2), ("tcpb", 0), ("udp", 3), ("tcp", 7), ("tcp", 8), ("tcp", 9)]):
         tc.run_dfs(ck, "%s | %s" % (proto, ENGINE_PROGS[pi]), 1 if not thorough else 2, 12000 if thorough else 500, "engine_dfs%d" % j, engine_nontrivial, **kw)
 
 
